@@ -10,6 +10,7 @@ exactly as the abstract map says from that state.  (This file exists because `Cr
 `Props/C04`; the check counts its theorems with C04's.)
 -/
 import Cacache.Lemmas.CrashRefine
+import Cacache.Lemmas.CrashMore
 
 namespace Cacache.C04x
 open Prog CacheRefine CrashRefine
@@ -63,5 +64,131 @@ theorem crash_then_continue (pre post : List (Env × COp)) (env : Env) (op : COp
       Healthy cfg cache (cRunOps cfg cache post (crashOp cfg cache env op (cRunOps cfg cache pre fs).2 n t)).2 := by
   obtain ⟨m', h1, _, _, _, h5, _, h7⟩ := crash_then_post cfg cache pre post env op fs h hl hpre hop hpost n t
   exact ⟨m', h1, h5, h7⟩
+
+/-! ### removals, clear and the link commit killed anywhere (Lemmas/CrashMore)
+
+"If the process is killed at any point during a keyed write OR A REMOVAL …": the operations outside
+`COp` - `remove_fully`, `clear` (for every order of the directory's children) and the `link_to`
+commit.  `remove_fully` has ONE intermediate state - content gone, entry still there (dangling): the
+documented two-step nature of a bulk deletion; a retry completes it. -/
+
+open ListRefine FaultMore CrashMore Refine Json in
+/-- **`remove_fully` killed anywhere** (every call, every tear): the cache is healthy, nothing is
+created or altered (only the bucket and the entry's content can be gone), keys of other bucket files
+look up as before, the key itself (and keys sharing its bucket) as before or not at all - never a
+third entry -, and a later write of any key succeeds, reads back and leaves a healthy cache. -/
+theorem removeFully_crash (env : Env) (key : Bytes) (fs : FS) (h : Healthy cfg cache fs) (n t : Nat) :
+    Healthy cfg cache (crash env (removeFully cfg cache key) fs n t) ∧
+    SubFS fs (crash env (removeFully cfg cache key) fs n t) ∧
+    (∃ cps, entryContent cfg cache env key fs cps ∧
+      Removed fs (crash env (removeFully cfg cache key) fs n t) (bucketPath cfg cache key :: cps)) ∧
+    (∀ k, ¬ SameBucket cfg k key → ∀ env',
+      (run env' (find cfg cache k) (crash env (removeFully cfg cache key) fs n t)).1 =
+        (run env' (find cfg cache k) fs).1) ∧
+    (∀ k, SameBucket cfg k key → ∀ env',
+      (run env' (find cfg cache k) (crash env (removeFully cfg cache key) fs n t)).1 =
+        (run env' (find cfg cache k) fs).1 ∨
+      (run env' (find cfg cache k) (crash env (removeFully cfg cache key) fs n t)).1 = .ok none) ∧
+    (HexLen cfg → ∀ env1 env2 fl a k data, utf8Valid k = true → data.length ≤ Rec.u64Max →
+      (run env1 (write cfg fl cache a k data) (crash env (removeFully cfg cache key) fs n t)).1 =
+        .ok (Sri.compute cfg.H a data) ∧
+      (run env2 (read cfg cache k)
+        (run env1 (write cfg fl cache a k data) (crash env (removeFully cfg cache key) fs n t)).2.1).1 =
+          .ok data ∧
+      Healthy cfg cache
+        (run env1 (write cfg fl cache a k data) (crash env (removeFully cfg cache key) fs n t)).2.1) :=
+  CrashMore.removeFully_crash cfg cache env key fs h n t
+
+open ListRefine FaultMore CrashMore Refine Json in
+/-- **… old, dangling or new - and a retry completes the removal**: abstractly the crashed state is
+one of three, and `remove_fully` run again on it ends exactly where an uninterrupted removal ends. -/
+theorem removeFully_retry_completes (env env' : Env) (key : Bytes) (fs : FS) (h : Healthy cfg cache fs)
+    (hl : HexLen cfg) (hT : Tidy cfg cache fs) (n t : Nat) :
+    AdmissibleRF cfg (absX cfg cache fs) key (absX cfg cache (crash env (removeFully cfg cache key) fs n t)) ∧
+    (run env' (removeFully cfg cache key) (crash env (removeFully cfg cache key) fs n t)).1 =
+      (removeFullySpec cfg (absX cfg cache (crash env (removeFully cfg cache key) fs n t)) key).2 ∧
+    absX cfg cache (run env' (removeFully cfg cache key) (crash env (removeFully cfg cache key) fs n t)).2.1 =
+      (removeFullySpec cfg (absX cfg cache fs) key).1 ∧
+    XHealthy cfg cache
+      (run env' (removeFully cfg cache key) (crash env (removeFully cfg cache key) fs n t)).2.1 :=
+  ⟨(CrashMore.removeFully_crash_states cfg cache env key fs h hl hT n t).2,
+   CrashMore.removeFully_retry_completes cfg cache env env' key fs h hl hT n t⟩
+
+open ListRefine FaultMore CrashMore Refine Json in
+/-- **`clear` killed anywhere, for every order of the directory's children** (a `remove_dir_all` torn
+after any part of a tree included): a sub-filesystem, nothing outside the cache directory touched,
+healthy; each child of the cache directory is untouched or gone with everything below it; a later
+`clear` empties the cache, a later write succeeds and reads back. -/
+theorem clear_crash (σ : List (Path × Bool) → List (Path × Bool)) (hσ : ∀ es e, e ∈ σ es → e ∈ es)
+    (env : Env) (fs : FS) (hH : Healthy cfg cache fs) (hT : Tidy cfg cache fs) (n t : Nat) :
+    (SubFS fs (crash env (clearIn σ cache) fs n t) ∧
+     (∀ q, (¬ cache <+: q ∨ q = cache) → (crash env (clearIn σ cache) fs n t).get q = fs.get q) ∧
+     Healthy cfg cache (crash env (clearIn σ cache) fs n t) ∧
+     (HexLen cfg → ∀ env1 env2 fl a k data, utf8Valid k = true → data.length ≤ Rec.u64Max →
+       (run env1 (write cfg fl cache a k data) (crash env (clearIn σ cache) fs n t)).1 =
+         .ok (Sri.compute cfg.H a data) ∧
+       (run env2 (read cfg cache k)
+         (run env1 (write cfg fl cache a k data) (crash env (clearIn σ cache) fs n t)).2.1).1 = .ok data ∧
+       Healthy cfg cache (run env1 (write cfg fl cache a k data) (crash env (clearIn σ cache) fs n t)).2.1)) ∧
+    (ClearedTo cache fs (crash env (clearIn σ cache) fs n t) ∧
+     XHealthy cfg cache (crash env (clearIn σ cache) fs n t) ∧
+     (crash env (clearIn σ cache) fs n t).isDir cache = fs.isDir cache ∧
+     (fs.isDir cache = true → ∀ env',
+       (run env' (clear cache) (crash env (clearIn σ cache) fs n t)).1 = .ok () ∧
+       (∀ q, cache <+: q → q ≠ cache →
+         (run env' (clear cache) (crash env (clearIn σ cache) fs n t)).2.1.get q = none) ∧
+       XHealthy cfg cache (run env' (clear cache) (crash env (clearIn σ cache) fs n t)).2.1 ∧
+       absCache cfg cache (run env' (clear cache) (crash env (clearIn σ cache) fs n t)).2.1 =
+         AbsCache.empty)) :=
+  ⟨CrashMore.clearIn_crash cfg cache σ hσ env fs hH n t, CrashMore.clearIn_crash_tidy cfg cache σ hσ env fs hH hT n t⟩
+
+open ListRefine FaultMore CrashMore Refine Json LinkRefine LinkDecl in
+/-- **The link commit killed anywhere** (by address and keyed, with or without declarations; `Healthy`
+of everything but the node at the address covers the four situations there): the address holds the old
+node or the new link - a regular file is never replaced, a half-made node never appears (the repair
+path leaves at most a temp link in `cache/tmp`) -, every other existing node outside `cache/tmp` and
+the key's bucket - the TARGET in particular - is unchanged, the index is healthy and maps as before or
+has exactly the one new entry, in which case the address holds what the completed link phase puts there. -/
+theorem lcommit_crash (env : Env) (l : Linker) (cpath : Path)
+    (hcp : contentPath l.cache (Sri.compute cfg.H l.algo l.data) = some cpath) (fs : FS)
+    (h : Healthy cfg l.cache (fs.del cpath))
+    (hw : ∀ k rec, l.key = some k →
+      declCheck l.opts l.data.length (Sri.compute cfg.H l.algo l.data) = .ok rec →
+      OptsWF k (declOpts l rec) ∧ SriOK cfg (declOpts l rec)) (n t : Nat) :
+    Healthy cfg l.cache ((crash env (lcommit cfg l) fs n t).del cpath) ∧
+    HealthyIndex cfg l.cache (crash env (lcommit cfg l) fs n t) ∧
+    ((crash env (lcommit cfg l) fs n t).get cpath = fs.get cpath ∨
+      ((crash env (lcommit cfg l) fs n t).get cpath = some (.link l.target) ∧
+        ∀ x, fs.get cpath ≠ some (.file x))) ∧
+    (∀ q x, fs.get q = some x → ¬ IsTmp l.cache q → q ≠ cpath →
+      (∀ k, l.key = some k → q ≠ bucketPath cfg l.cache k) →
+      (crash env (lcommit cfg l) fs n t).get q = some x) ∧
+    absStore l.cache ((crash env (lcommit cfg l) fs n t).del cpath) = absStore l.cache (fs.del cpath) ∧
+    (absIndex cfg l.cache (crash env (lcommit cfg l) fs n t) = absIndex cfg l.cache fs ∨
+      ∃ k rec tm, l.key = some k ∧
+        declCheck l.opts l.data.length (Sri.compute cfg.H l.algo l.data) = .ok rec ∧
+        tm ≤ timeMax ∧ (∀ t', l.opts.time = some t' → tm = t') ∧
+        absIndex cfg l.cache (crash env (lcommit cfg l) fs n t) =
+          insIndex (absIndex cfg l.cache fs) k (declOpts l rec) tm ∧
+        (crash env (lcommit cfg l) fs n t).get cpath = (run env (lcommit cfg (bare l)) fs).2.1.get cpath) :=
+  CrashMore.lcommit_crash cfg env l cpath hcp fs h hw n t
+
+open ListRefine FaultMore CrashMore Refine Json in
+/-- **Any history, one `remove_fully` or `clear` killed anywhere, any history afterwards**: every answer
+of `post` is what the abstract cache gives from an admissible state (old / dangling / new for
+`remove_fully`; any sub-state for `clear`), and the cache is healthy and tidy throughout. -/
+theorem crash_then_continue_ext (pre post : List (Env × XOp)) (env : Env) (op : MOp) (fs : FS)
+    (h : XHealthy cfg cache fs) (hl : HexLen cfg) (hpre : ∀ x ∈ pre, x.2.WF cfg) (hop : op.WF)
+    (hpost : ∀ x ∈ post, x.2.WF cfg) (n t : Nat) :
+    ∃ m', AdmissibleM cfg (xSpecRun cfg pre (absX cfg cache fs)).2 op m' ∧
+      XHealthy cfg cache (crashM cfg cache env op (xRunOps cfg cache pre fs).2 n t) ∧
+      absX cfg cache (crashM cfg cache env op (xRunOps cfg cache pre fs).2 n t) = m' ∧
+      Answers (xRunOps cfg cache pre fs).1 (xSpecRun cfg pre (absX cfg cache fs)).1 ∧
+      Answers (xRunOps cfg cache post (crashM cfg cache env op (xRunOps cfg cache pre fs).2 n t)).1
+        (xSpecRun cfg post m').1 ∧
+      absX cfg cache (xRunOps cfg cache post (crashM cfg cache env op (xRunOps cfg cache pre fs).2 n t)).2 =
+        (xSpecRun cfg post m').2 ∧
+      XHealthy cfg cache (xRunOps cfg cache post (crashM cfg cache env op (xRunOps cfg cache pre fs).2 n t)).2 :=
+  CrashMore.crash_then_continue_ext cfg cache pre post env op fs h hl hpre hop hpost n t
 
 end Cacache.C04x
